@@ -485,7 +485,8 @@ SPEC = Spec(
         "R16-ROUTE treats only a comparison with () (a rank test) as exact; a "
         "component compared with another literal must be integer-proven or "
         "reviewed. R16-STATE: pytato.utils keeps no state that outlives a call (no "
-        "memo of verdicts keyed by id())."),
+        "memo of verdicts keyed by id()). "
+        "R16-INTCLASS: an integer test on a shape component, an index or a reduction bound uses INT_CLASSES, never bare int (NumPy integers are accepted there)."),
     not_decided=(
         "That one compiled kernel is right for every size (behaviour of generated "
         "code) and that inferred shapes equal concrete shapes under every "
